@@ -646,4 +646,6 @@ def bytes_to_str(b):
 
 
 def unquote_to_wsgi_str(string):
-    return urllib.parse.unquote_to_bytes(string).decode('latin-1')
+    # the request target was decoded as latin-1 (one character per byte):
+    # go back to those bytes, a str argument would be re-encoded as UTF-8
+    return urllib.parse.unquote_to_bytes(string.encode('latin-1')).decode('latin-1')
